@@ -129,7 +129,8 @@ func RunTLC(o TLCOpts) (*TLCResult, error) {
 			return nil, err
 		}
 	}
-	args := []string{"-XX:+UseParallelGC", fmt.Sprintf("-Xmx%dm", o.HeapMB), "-Xss256m"}
+	// java.io.tmpdir: TLC unpacks its standard modules into a fresh tlc-* directory per run and leaves it behind
+	args := []string{"-XX:+UseParallelGC", fmt.Sprintf("-Xmx%dm", o.HeapMB), "-Xss256m", "-Djava.io.tmpdir=" + dir}
 	if o.DFS {
 		args = append(args, "-Dtlc2.tool.queue.IStateQueue=StateDeque")
 	}
